@@ -4,7 +4,7 @@
    image exists only inside an [Ok] outcome (the result type), so "failed => no image" holds by construction; proved here:
    the expression parser never runs out of fuel, the image has exactly the window's length (its loop cannot spin), and
    success is never reported for the four kinds of faulty program the property names. *)
-From BA Require Import Base Bits BitsSpec BitsProofs Expr ExprProofs Subst Layout LayoutProofs Program Match MatchProofs.
+From BA Require Import NoFuel Base Bits BitsSpec BitsProofs Expr ExprProofs Subst Layout LayoutProofs Program Match MatchProofs.
 
 Theorem C14_parser_fuel_suffices : forall ts, parse_tokens ts <> OutOfFuel.
 Proof. exact parse_tokens_never_out_of_fuel. Qed.
@@ -38,3 +38,10 @@ Theorem C14_overflow_rejected : forall ps : list part,
   Exists (fun p => ~ fits_width (p_size p) (p_value p)) ps -> is_ok (get_bytes ps) = false.
 Proof. exact pack_rejects_overflow. Qed.
 Print Assumptions C14_overflow_rejected.
+
+(* termination, as far as a model can state it: every function of the model is total (structural recursion, or recursion
+   on fuel), and the fuel never runs out -- the answer of the whole-program model is "assembled" or "rejected", for every
+   configuration, every set of source files and every option set *)
+Theorem C14_model_always_answers : forall cfg files opts, assemble cfg files opts <> OutOfFuel.
+Proof. exact assemble_never_out_of_fuel. Qed.
+Print Assumptions C14_model_always_answers.
